@@ -48,6 +48,8 @@ def escapes(P: Program) -> Escapes:
             return [m for m in W.resolve_method(fi, call) if not (m.cls is not None and m.cls.name == 'IRecognizer')]
         if isinstance(call.func, ast.Name):
             r = P.resolve_expr(fi.module, call.func, fi)
+            if r is None:
+                return W.resolve_local_callable(fi, call.func.id)
             if isinstance(r, FunctionInfo):
                 return [r]
             if isinstance(r, ClassInfo) and '__init__' in r.methods and r.module.name.startswith('yatiml'):
